@@ -9,7 +9,7 @@ EXTENDS Integers, Sequences, FiniteSets, TLC, Json, IOUtils
 Rec == ndJsonDeserialize(IOEnv.TRACE)
 VARIABLES l, run, viol, hits, nruns
 vars == <<l, run, viol, hits, nruns>>
-Rules == {"W1", "W2", "W3", "W4", "W5", "W6", "PANIC"}
+Rules == {"W1", "W2", "W3", "W4", "W5", "W6", "W7", "PANIC"}
 Flush == viol = <<>> \/ PrintT(<<"RUNVIOL", ToJson([run |-> run, viol |-> viol])>>)
 Init == l = 1 /\ run = -1 /\ viol = <<>> /\ hits = [r \in Rules |-> 0] /\ nruns = 0
 MustDeliver(s) == s.o \in {"inorder", "reverse", "dup-first", "swap-tail"}
@@ -25,11 +25,14 @@ Step ==
                 w2 == P("W2", r.maxframe <= 125, <<r.maxframe>>)
                 \* W6 (C10): the options of every neighbour-discovery message sent over 802.15.4 tile the message exactly
                 w6 == P("W6", "nd_bad" \notin DOMAIN r \/ r.nd_bad = 0, <<"ndisc-options", IF "nd_bad" \in DOMAIN r THEN r.nd_bad ELSE 0>>)
+                \* W7 (C10): a one-frame UDP datagram to a multicast group tiles its frame (MAC, IPHC, NHC UDP, payload)
+                w7 == P("W7", "mc_bad" \notin DOMAIN r \/ r.mc_bad = 0, <<"mcast-frame", IF "mc_bad" \in DOMAIN r THEN r.mc_bad ELSE 0>>)
                 w3 == P("W3", s.o # "drop-one" \/ r.nfrag_first <= 1 \/ Len(r.got) < s.n, <<"delivered-incomplete">>)
                 w4 == P("W4", ~(MustDeliver(s) /\ r.accepted = s.n) \/ Len(r.got) >= s.n, <<Len(r.got), s.n>>)
-            IN /\ viol' = IF Len(viol) >= 40 THEN viol ELSE viol \o w1 \o w2 \o w3 \o w4 \o w6
+            IN /\ viol' = IF Len(viol) >= 40 THEN viol ELSE viol \o w1 \o w2 \o w3 \o w4 \o w6 \o w7
                /\ hits' = [hits EXCEPT !["W1"] = @ + Len(r.got), !["W2"] = @ + 1, !["W3"] = @ + (IF s.o = "drop-one" THEN 1 ELSE 0), !["W4"] = @ + (IF MustDeliver(s) THEN 1 ELSE 0),
-                                       !["W6"] = @ + (IF "nd_seen" \in DOMAIN r THEN r.nd_seen ELSE 0)]
+                                       !["W6"] = @ + (IF "nd_seen" \in DOMAIN r THEN r.nd_seen ELSE 0),
+                                       !["W7"] = @ + (IF "mc_seen" \in DOMAIN r THEN r.mc_seen ELSE 0)]
                /\ UNCHANGED <<run, nruns>>
        [] r.ev = "iphc" ->
             LET s == r.s IN
